@@ -12,7 +12,7 @@ ID = 'C04'
 POISON_WORD = 0x7ff8000000000000   # NaN
 RULE = ('count matrices: all n=2 over {0..3}, all n=3 over {0,1,2}, a 1/23 sample of n=4 binary patterns (T: + n=3 over {0,1,5}, n=4 binary off-diagonal with '
         'diagonal in {0,2}) with every row having outgoing counts x containers {ndarray,csr,csc,coo,lil,dok,dia,bsr (single block and multi-block)}_matrix '
-        'x prior_counts {None,1,0.5; asymmetric / row-normalised / triangular (n,n) arrays on every 3rd matrix} x calculate_eq_probs {T,F}; on every 3rd matrix additionally float64/int32 counts, '
+        'x prior_counts {None,1,0.5; asymmetric / row-normalised / triangular (n,n) arrays on every 3rd matrix} x calculate_eq_probs {T,F}; sparse reversible counts with 1000/1002 states (ARPACK population path); on every 3rd matrix additionally float64/int32 counts, '
         'Fortran-ordered and transposed-view dense input, and a second call on the same caller object; x builders {normalize,transpose,mle (mle: strongly '
         'connected only, all containers on every 5th matrix; Q: normalize/transpose use all 8 containers on every 4th '
         'matrix and {ndarray,csr,lil} on the rest)}; state=(matrix,container,prior,eq,builder); '
@@ -21,7 +21,7 @@ ASSUMPTIONS = ['tolerances: row sums 1e-12, detailed balance / stationarity 1e-9
                'stationarity asserted only for strongly connected inputs (unique stationary vector)',
                'scipy sparse *matrix* containers only (the property\'s list); sparse arrays are not in scope',
                'NEP-49 poison allocator fills fresh numpy buffers with NaN during the run']
-GUARDS = {'array_prior': 300, 'float_counts': 500, 'dense_layouts': 200, 'sparse_in': 1000, 'prior': 1000, 'strongly_connected': 1000, 'not_strongly_connected': 100,
+GUARDS = {'big_sparse': 8, 'array_prior': 300, 'float_counts': 500, 'dense_layouts': 200, 'sparse_in': 1000, 'prior': 1000, 'strongly_connected': 1000, 'not_strongly_connected': 100,
           'mle_sparse': 100, 'eq_off': 1000}
 NSH = {'quick': 64, 'thorough': 256}
 CONTAINERS = ('ndarray', 'csr', 'csc', 'coo', 'lil', 'dok', 'dia', 'bsr', 'bsrblocks')
@@ -60,7 +60,7 @@ def matrices(tier):
 
 
 def shards(tier, seed):
-    return [(tier, i) for i in range(NSH[tier])]
+    return [(tier, i) for i in range(NSH[tier])] + [('big', 0)]
 
 
 def wrap(C, cont, dtype='int64'):
@@ -222,7 +222,38 @@ def check_case(case, ctx):
             ctx.violation('transpose:detailed_balance:%s' % ctag, case, 'residual %g' % db)
 
 
+def check_big(case, ctx):
+    """sparse counts with >= 1000 states: the population calculation takes the ARPACK path"""
+    from enspara.msm import builders
+    from .c16 import big_chain, big_chain_reference
+    n, cont, bname = case['n'], case['container'], case['builder']
+    ctx.ev()
+    ctx.guard('big_sparse')
+    ctx.state(('big', n, cont, bname), nontrivial=True)
+    T0 = big_chain(n, 0.25, 0.5)
+    _, pi0 = big_chain_reference(T0)
+    C = np.round(pi0[:, None] * T0 * 3e6)        # reversible integer counts, non-uniform populations
+    M = getattr(sp, cont + '_matrix')(C)
+    try:
+        Cout, T, pi = getattr(builders, bname)(M)
+    except Exception as e:
+        ctx.violation('%s:big_sparse:raises:%s' % (bname, type(e).__name__), case, repr(e))
+        return
+    Td = mr.to_dense(T).astype(float)
+    r = mr.stationary_residuals(Td, pi)
+    if type(T) is not type(M) or np.abs(Td.sum(axis=1) - 1).max() > 1e-12:
+        ctx.violation('%s:big_sparse:T_invalid' % bname, case, 'type %s row sums off by %g' % (type(T).__name__, np.abs(Td.sum(axis=1) - 1).max()))
+    if r['sum'] > 1e-8 or r['stat'] > 1e-8 or r['neg'] > 1e-9:
+        ctx.violation('%s:not_stationary:big_sparse' % bname, case, 'n=%d %s: residuals %r' % (n, cont, r))
+
+
 def run_shard(sh, ctx):
+    if sh[0] == 'big':
+        for n in (1000, 1002):
+            for cont in ('csr', 'coo'):
+                for bname in ('normalize', 'transpose'):
+                    check_big({'kind': 'big', 'n': n, 'container': cont, 'builder': bname}, ctx)
+        return
     tier, i = sh
     ms = matrices(tier)
     for j in range(i, len(ms), NSH[tier]):
@@ -268,4 +299,7 @@ def run_shard(sh, ctx):
 
 
 def replay(case, ctx):
-    check_case(case, ctx)
+    if case.get('kind') == 'big':
+        check_big(case, ctx)
+    else:
+        check_case(case, ctx)
